@@ -166,8 +166,8 @@ def cases(tier, seed):
         for fam, profile in (("daily", "current"), ("daily", "legacy"), ("billing", "current")):
             for n_days in (365, 330):
                 k += 1
-                if tier == "quick" and (k + seed) % 6 != 0:
-                    continue
+                if tier == "quick" and (k + seed) % 6 != 0 and not (fam == "daily" and profile == "current" and n_days == 365):
+                    continue        # quick: every regime once under the current daily profile, the other (profile, span) combinations in rotation
                 if fam == "billing" and n_days == 330:
                     continue
                 c = dict(r, family=fam, profile=profile, n_days=n_days, seed=int(1000 * seed + k))
